@@ -287,7 +287,7 @@ fn run_jobs(jobs: Vec<Job>) -> Result<Vec<(Job, Result<JobResult, String>)>, Mac
 pub fn run(tier: Tier, _budget: f64, out: &mut Outcome) -> Result<(), MachineryError> {
     out.rule = RULE.into();
     let q = tier.quick();
-    let scratch = format!("{}/.target/c06", check::VERIF);
+    let scratch = format!("{}/.target/c06", &check::verif_root());
     let _ = std::fs::create_dir_all(&scratch);
     let mut jobs = Vec::new();
     let mut id = 0;
@@ -349,7 +349,7 @@ pub fn run(tier: Tier, _budget: f64, out: &mut Outcome) -> Result<(), MachineryE
                 out.known_hits.push(format!("KNOWN-FINDING: property=C06 {}", k.what));
                 continue;
             }
-            let dir = std::path::Path::new(check::VERIF).join("replays").join("C06");
+            let dir = std::path::Path::new(&check::verif_root()).join("replays").join("C06");
             let _ = std::fs::create_dir_all(&dir);
             let path = dir.join(format!("{:016x}.json", crate::explore::hash_of(&(&b.oracle, &b.input, job.channel, format!("{:?}", job.sender)))));
             let doc = json!({"property": "C06", "kind": "bytes", "config": job.config, "sender": job.sender, "channel": job.channel, "input": b.input,
@@ -376,7 +376,7 @@ pub fn replay(doc: &serde_json::Value) -> i32 {
         inputs: format!("one:{}", doc["input"].as_str().unwrap()),
         part: 0,
         parts: 1,
-        journal: format!("{}/.target/c06-replay-journal", check::VERIF),
+        journal: format!("{}/.target/c06-replay-journal", &check::verif_root()),
     };
     println!("config {:?} sender {:?} channel {} input {}", job.config, job.sender, job.channel, doc["input"]);
     match run_jobs(vec![job]) {
